@@ -11,10 +11,11 @@ for d in seeded/${1:-*}/; do
   checks=$(/venv/bin/python -c "import json;print(' '.join(json.load(open('$d/meta.json'))['caught_by_quick_checks']))")
   first=$(echo $checks | cut -d' ' -f1)
   git -C $WT reset -q --hard; git -C $WT clean -fdq
-  if ! git -C $WT apply $PWD/$d/patch.diff 2>/dev/null; then
+  PATCH=$PWD/$d/patch.diff
+  if ! git -C $WT apply $PATCH 2>/dev/null; then
     # the tree has been repaired since the seed was made: try with fuzz before giving up
     git -C $WT reset -q --hard
-    if ! (cd $WT && patch -p1 -s -F3 --no-backup-if-mismatch < $PWD/$d/patch.diff >/dev/null 2>&1); then echo "$id PATCH-DOES-NOT-APPLY"; continue; fi
+    if ! (cd $WT && patch -p1 -s -F3 --no-backup-if-mismatch < $PATCH >/dev/null 2>&1); then echo "$id PATCH-DOES-NOT-APPLY"; continue; fi
     if ! (cd $WT && /venv/bin/python -c "import ptera" 2>/dev/null); then echo "$id PATCH-DOES-NOT-APPLY (fuzz broke the import)"; continue; fi
   fi
   out=$(PTERA_SRC=$WT VERIF_JOBS=${SEED_JOBS:-8} timeout 1800 ./check $first --tier quick 2>&1); rc=$?
